@@ -27,6 +27,9 @@ func c05Options(t *rapid.T, words []string) []database.SearchOptions {
 		base,
 		mk(func(o *database.SearchOptions) { o.Limit = 2 }),
 		mk(func(o *database.SearchOptions) { o.Limit = 0 }),
+		mk(func(o *database.SearchOptions) { o.Limit = 75 }),
+		mk(func(o *database.SearchOptions) { o.Limit = 1000 }),
+		mk(func(o *database.SearchOptions) { o.Limit = 1000; o.UseNLP = false }),
 		mk(func(o *database.SearchOptions) { o.ContextBoosts = map[string]float64{w(0): 3} }),
 		mk(func(o *database.SearchOptions) { o.ContextBoosts = map[string]float64{w(0): 1.5} }),
 		mk(func(o *database.SearchOptions) { o.ContextBoosts = map[string]float64{w(1): 3} }),
@@ -93,6 +96,10 @@ func asciiOnly(s string) string {
 }
 
 func c05DB(t *rapid.T, label string) []database.Command {
+	if rapid.IntRange(0, 4).Draw(t, label+"-bulk") == 0 {
+		// many entries sharing words: answers of 50-250 results under the large limits
+		return gen.Bulk(t, rapid.IntRange(60, 250).Draw(t, label+"-n"), gen.CmdOpts{Platforms: true})
+	}
 	cmds := rapid.SliceOfN(c04Cmd(), 4, 14).Draw(t, label)
 	return cmds
 }
@@ -101,6 +108,7 @@ func TestC05_Cache(t *testing.T) {
 	rec := stat.For("C05")
 	rec.Rule("rapid state machine over CachedDatabase / MonitoredDatabase: search(q, options) with q from a pool of 6 queries x ASCII case re-spellings x spacing variants (leading / trailing / doubled blank, tab: distinct queries) and options from a pool of one-field deltas of a base set in every field (limit, boosts, pipeline-only/boost, fuzzy, threshold, NLP, term cap, all-platforms, platforms, no-cross), invalidate, enable/disable, cleanup, stats, update(commands'). Oracle after every search: ranked list (entry index, score bits) equals SearchUniversal on an independently loaded Database holding the current commands. Non-trivial = the sequence has a cache hit on a query searched before under a different option set or spelling, or a search after an update.")
 	rec.RequireShare("delta-repeat-hit", 0.25)
+	rec.RequireShare("hit-over-50-results", 0.02)
 	rapid.Check(t, func(t *rapid.T) {
 		cmds := c05DB(t, "cmds")
 		fresh := gen.Load(t, cmds)
@@ -127,6 +135,12 @@ func TestC05_Cache(t *testing.T) {
 			asciiOnly(tok.Draw(t, "q5w")[:2]),
 		}
 		opts := c05Options(t, toks)
+		var bigIdx []int
+		for i, o := range opts {
+			if o.Limit >= 75 {
+				bigIdx = append(bigIdx, i)
+			}
+		}
 		type hist struct {
 			spelling string
 			opt      int
@@ -135,12 +149,16 @@ func TestC05_Cache(t *testing.T) {
 		var steps []string
 		var past [][2]int
 		hits, deltaRepeatHit, afterUpdate, updated := 0, false, false, false
+		bigHit := false
 		enabled := true
 		statsHits := func() int64 { return cdb.GetCacheStats()["search"].Hits }
 		acts := map[string]func(*rapid.T){
 			"search": func(t *rapid.T) {
 				qi := rapid.IntRange(0, len(queries)-1).Draw(t, "qi")
 				oi := rapid.IntRange(0, len(opts)-1).Draw(t, "oi")
+				if len(cmds) > 50 && rapid.IntRange(0, 2).Draw(t, "big-limit") == 0 {
+					oi = rapid.SampledFrom(bigIdx).Draw(t, "big-oi")
+				}
 				if len(past) > 0 {
 					// repeats are what exercise the cache: re-issue an earlier request
 					// unchanged, or with only its option set changed
@@ -183,6 +201,9 @@ func TestC05_Cache(t *testing.T) {
 					t.Fatalf("cached layer answered %s, an uncached search of the current database answers %s\n query=%q options=%v hit=%v enabled=%v\n steps=%v\n db=%v", rankStr(a), rankStr(b), q, optBrief(o), wasHit, enabled, steps, gen.BriefDB(cmds, 14))
 				}
 				key := strings.ToLower(strings.TrimSpace(q))
+				if wasHit && len(got) > 50 {
+					bigHit = true
+				}
 				if wasHit {
 					hits++
 					for _, h := range seen[key] {
@@ -259,6 +280,9 @@ func TestC05_Cache(t *testing.T) {
 		}
 		if useMon {
 			labels = append(labels, "monitored")
+		}
+		if bigHit {
+			labels = append(labels, "hit-over-50-results")
 		}
 		if len(steps) > 40 {
 			steps = append(steps[:40], fmt.Sprintf("... %d more", len(steps)-40))
